@@ -7,7 +7,7 @@ use std::sync::Arc;
 use vsched::rt;
 
 pub fn list() -> Vec<(&'static str, super::Scenario)> {
-    vec![("pipe_drop_output", pipe_drop_output), ("pipe_in_items", pipe_in_items), ("pipe_out", pipe_out), ("pipe_steal", pipe_steal)]
+    vec![("pipe_drop_output", pipe_drop_output), ("pipe_in_items", pipe_in_items), ("pipe_out", pipe_out), ("pipe_steal", pipe_steal), ("pipe_rewake", pipe_rewake)]
 }
 
 fn dobj(w: &World) -> (Arc<Desync<Payload>>, Arc<ObjState>) {
@@ -141,15 +141,55 @@ fn pipe_in_items(cfg: &Cfg) {
     let st2 = st.clone();
     let processed = Arc::new(std::sync::Mutex::new(Vec::<u32>::new()));
     let processed2 = processed.clone();
+    // `dropmid`=1: the processing of the first item blocks until the environment releases it, and the caller drops its Arc meanwhile
+    let hold = BGate::new();
+    let (hold2, dropmid) = (hold.clone(), cfg.opt("dropmid", 0) == 1);
     pipe_in(obj.clone(), stream, move |p: &mut Payload, item: u32| {
         let _keep = &dc;
         p.check("pipe-item");
         st2.enter("pipe-item");
         vsched::thread::yield_now();
+        if dropmid && item == 1 {
+            hold2.wait();
+        }
         processed2.lock().unwrap().push(item);
         st2.exit();
         futures::future::ready(()).boxed()
     });
+    if dropmid {
+        // one item arrives and its processing blocks; the last Arc is dropped while the pipe's poll job is running
+        ctl.push(1);
+        rt::quiesce();
+        let opener = spawn(move || hold.open());
+        let dropper = {
+            let drops = w.payload_drops.clone();
+            spawn(move || {
+                drop(obj);
+                if drops.load(AO::SeqCst) != 1 {
+                    rt::violation(format!("DROP-COUNT the payload was destroyed {} times when the last owner's drop returned (a pipe_in poll was running)", drops.load(AO::SeqCst)));
+                }
+            })
+        };
+        join(opener, "opener");
+        join(dropper, "dropper");
+        rt::quiesce();
+        if processed.lock().unwrap().clone() != vec![1] {
+            rt::violation(format!("PIPE-IN-ITEMS processed {:?}, expected [1]", processed.lock().unwrap()));
+        }
+        if w.payload_drops.load(AO::SeqCst) != 1 {
+            rt::violation("PIPE-IN-STRONG the payload was not destroyed although the caller dropped the last Arc (pipe_in must only hold a weak reference)".into());
+        }
+        ctl.push(99);
+        rt::quiesce();
+        if ctl.stream_drops() != 1 || closure_drops.load(AO::SeqCst) != 1 {
+            rt::violation(format!("PIPE-IN-LEAK after the Desync was dropped and the input produced an event: stream drops={} closure drops={}", ctl.stream_drops(), closure_drops.load(AO::SeqCst)));
+        }
+        w.check_quiet();
+        check_no_unplanned_panics();
+        rt::quiesce();
+        shutdown();
+        return;
+    }
     // `pin`=1: every pool thread is pinned by a blocking job and a stale schedule entry is left in front (a queue scheduled
     // and then run by its caller) before the items arrive; the environment frees the pool threads afterwards
     let mut pins = vec![];
@@ -366,6 +406,79 @@ fn pipe_steal(cfg: &Cfg) {
     }
     drop(wobj);
     rt::quiesce();
+    drop(out);
+    rt::quiesce();
+    w.check_quiet();
+    drop(obj);
+    check_no_unplanned_panics();
+    rt::quiesce();
+    shutdown();
+}
+
+/// C12 "consumers always wake": the consumer polls the empty output stream with one waker, then again
+/// with another (the stream handed to another task, or a combinator using a fresh waker per poll); the
+/// next output (`what`=0) or the end of the stream (`what`=1) must wake the most recent one.
+fn pipe_rewake(cfg: &Cfg) {
+    use futures::Stream;
+    let pool = cfg.pool();
+    setup(pool);
+    let what = cfg.opt("what", 0);
+    let w = World::new();
+    w.prelude(cfg);
+    let (obj, st) = dobj(&w);
+    let (stream, ctl) = scripted_stream(&[]);
+    let st2 = st.clone();
+    let mut out = pipe(obj.clone(), stream, move |p: &mut Payload, item: u32| {
+        p.check("pipe-item");
+        st2.enter("pipe-item");
+        vsched::thread::yield_now();
+        st2.exit();
+        futures::future::ready(item + 100).boxed()
+    });
+    let (wa, ca) = counting_waker();
+    let (wb, cb) = counting_waker();
+    let mut first = None;
+    {
+        let mut cx = futures::task::Context::from_waker(&wa);
+        if let futures::task::Poll::Ready(v) = std::pin::Pin::new(&mut out).poll_next(&mut cx) {
+            first = Some(v);
+        }
+    }
+    vsched::thread::yield_now();
+    if first.is_none() {
+        let mut cx = futures::task::Context::from_waker(&wb);
+        if let futures::task::Poll::Ready(v) = std::pin::Pin::new(&mut out).poll_next(&mut cx) {
+            first = Some(v);
+        }
+    }
+    let ctl2 = ctl.clone();
+    let producer = spawn(move || {
+        if what == 0 {
+            ctl2.push(1);
+        }
+        ctl2.end();
+    });
+    join(producer, "producer");
+    rt::quiesce();
+    if first.is_none() && cb.load(AO::SeqCst) == 0 {
+        rt::violation(format!("PIPE-OUT-WAKE the consumer's most recent waker was never woken although the pipe produced {} (earlier waker woken {} times)", if what == 0 { "an output" } else { "the end of the stream" }, ca.load(AO::SeqCst)));
+    }
+    let mut got = vec![];
+    if let Some(Some(v)) = first {
+        got.push(v);
+    }
+    if first != Some(None) {
+        while let Some(v) = block_on(out.next()) {
+            got.push(v);
+            if got.len() > 3 {
+                break;
+            }
+        }
+    }
+    let expect: Vec<u32> = if what == 0 { vec![101] } else { vec![] };
+    if got != expect {
+        rt::violation(format!("PIPE-OUT-ITEMS consumer received {:?}, expected {:?} then end of stream", got, expect));
+    }
     drop(out);
     rt::quiesce();
     w.check_quiet();
